@@ -389,6 +389,19 @@ func runC18(r *ev.Run) {
 		if err := cos.PreprocessInPlace(z); err == nil {
 			fail("cos.zero-accepted", "PreprocessInPlace accepted the zero vector")
 		}
+		// ... also when some (or all) of its components are NEGATIVE zeros (what Scale(zero, -1) or 0 * -x leaves)
+		nz := make([]float32, dim)
+		for j := range nz {
+			if rng.IntN(2) == 0 || j == 0 {
+				nz[j] = float32(math.Copysign(0, -1))
+			}
+		}
+		if out, err := cos.Preprocess(nz); err == nil {
+			fail("cos.zero-accepted", fmt.Sprintf("Preprocess accepted a zero vector with negative-zero components: %v -> %v", nz, out))
+		}
+		if err := cos.PreprocessInPlace(cloneF32(nz)); err == nil {
+			fail("cos.zero-accepted", "PreprocessInPlace accepted a zero vector with negative-zero components")
+		}
 
 		// --- batch == element-wise (targets: an unrelated vector AND the related one, so that nearly equal
 		// query/target pairs with large norms — where an expanded |q|²-2q·t+|t|² form cancels — are covered) ---
